@@ -40,3 +40,46 @@ Definition row_eqb (a b : fmt_row) : bool :=
 Definition tables_agree (a b : list fmt_row) : bool :=
   Nat.eqb (List.length a) (List.length b) &&
   forallb (fun r => existsb (row_eqb r) b) a && forallb (fun r => existsb (row_eqb r) a) b.
+
+(* ---- the path of every option: flag -> (file written by the driver) -> load -> FontConfig.
+   One row per FontConfig field, regenerated from config.py's source on every run. *)
+Record cfg_row := CfgRow {
+  c_name : string;
+  c_type : string;            (* annotation of the FontConfig field *)
+  c_flag : string;            (* kind of the flag of the same name ("" = no flag) *)
+  c_flag_unset_is_none : bool;(* the flag's default is None, so "not given" is distinguishable *)
+  c_written : bool;           (* config.write stores config.<name> under "<name>" *)
+  c_loaded : bool;            (* config.load takes _pop_flag(config, "<name>") into the local <name> *)
+  c_cast : string;            (* int / float around the _pop_flag *)
+  c_passed : bool;            (* load's FontConfig(...) receives <name>=<name> *)
+  c_rebound : bool }.         (* the local is assigned again before it is passed *)
+
+(* the documented options (README / --help) and the kind of value each takes; written by hand *)
+Definition config_spec : list (string * string) := [
+  ("family", "string"); ("output_file", "string"); ("color_format", "enum");
+  ("upem", "integer"); ("width", "integer"); ("ascender", "integer"); ("descender", "integer");
+  ("linegap", "integer"); ("transform", "string"); ("version_major", "integer");
+  ("version_minor", "integer"); ("reuse_tolerance", "float"); ("ignore_reuse_error", "bool");
+  ("keep_glyph_names", "bool"); ("clip_to_viewbox", "bool"); ("clipbox_quantization", "integer");
+  ("pretty_print", "bool"); ("fea_file", "string"); ("glyphmap_generator", "string");
+  ("bitmap_resolution", "integer"); ("use_zopflipng", "bool"); ("use_pngquant", "bool");
+  ("pngquant_flags", "string") ]%string.
+(* fields that are tables in the file ([axis.x] and [master.x]), not options *)
+Definition config_structured : list string := ["axes"; "masters"; "source_names"]%string.
+
+Definition str_in (s : string) (l : list string) : bool := existsb (String.eqb s) l.
+Definition row_complete (r : cfg_row) : bool :=
+  c_flag_unset_is_none r && c_written r && c_loaded r && c_passed r &&
+  (* only the user transform is parsed again (from its string form) *)
+  (negb (c_rebound r) || String.eqb (c_name r) "transform").
+Definition config_paths_ok (rows : list cfg_row) (pop_rule : bool) (extra_written extra_passed : list string) : bool :=
+  pop_rule &&
+  (* every documented option is a field with a flag of the documented kind and a complete path *)
+  forallb (fun o => existsb (fun r => String.eqb (c_name r) (fst o) && String.eqb (c_flag r) (snd o) && row_complete r) rows) config_spec &&
+  (* every field is a documented option or one of the structured ones, and is listed once *)
+  forallb (fun r => if String.eqb (c_flag r) "" then str_in (c_name r) config_structured
+                    else str_in (c_name r) (map fst config_spec)) rows &&
+  Nat.eqb (List.length rows) (List.length config_spec + List.length config_structured) &&
+  (* nothing else is written or passed *)
+  forallb (fun k => str_in k ["axis"; "master"]%string) extra_written &&
+  match extra_passed with [] => true | _ => false end.
